@@ -17,6 +17,12 @@ CHECKS = {
              note='as C02', tech='Lean 4 proof + tracer-ring correspondence', ref='6/C04'),
  'C05': dict(text='hodge/unhodge/polarity/rp modelled with the real sign conventions (incl. custom-basis pseudoscalar orientation); tie by tracer correspondence over all signatures d<=3 (sampled above), custom and named bases; inverse pairs, E^hodge(E)=pss, polarity definition, ZeroDivisionError iff degenerate, rp definition and identity, dual dispatch checked on the real code.',
              note='as C02; polarity is generated through sympy (trusted printer)', tech='Lean 4 model + tracer-ring correspondence + identity oracle', ref='6/C05'),
+ 'C09': dict(text='The operator dictionaries are modelled as a get-or-generate state machine with a name-keyed numspace; proved for all histories and all interleavings of atomic steps: names are injective in (operator, ordered key tuple), every call is served by its own function from every reachable state with or without wrapper, failing generations leave the state unchanged. Tie: real function names vs. the model name function, every call of seeded histories (direct, wrapper, registered, symbolic call, raising, injected faults, 8 threads) compared with a fresh algebra; operand immutability.',
+             note='Lean kernel + standard axioms; GIL atomicity of single dict operations and cached_property are assumptions; the thread run is a test that supports the interleaving theorem',
+             tech='Lean 4 invariant proofs over histories and schedules + differential history replay against fresh algebras', ref='6/C09'),
+ 'C10': dict(text='generate-at-most-once and cached-call-is-free proved by induction over arbitrary sequential histories of the protocol model (the cache key contains no values); tie: generation/compile/wrap events of the real code observed by rebinding module globals, per-call generation trace diffed against the model, for int/float/Fraction/ndarray/sympy/mixed coefficients and composite operators with nested generation.',
+             note='Lean kernel + standard axioms; a generation attempt that raises stores nothing and is retried (modelled as failing generation)',
+             tech='Lean 4 invariant proof + event-trace correspondence', ref='6/C10'),
 }
 NOT_YET = 'check not built yet in this round (design in DESIGN.md section 6); not claimed until it runs green on the unchanged tree'
 
